@@ -52,7 +52,7 @@ def str_contents():
         st.text(alphabet="ab'' \n\t%_\\\";-/*", max_size=10),
         st.sampled_from(["'", "''", "'''", "a'b", "' or 1 eq 1 or '", "\x00", "’", " ", "",
                          "duration'P1D'", "geography'x'", "null", "true", "%41", "a%20b", "%27", "100%25", "%u0041",
-                         "\\n", "\\'", "&amp;", "+", "a+b"]),
+                         "\\n", "\\'", "&amp;", "+", "a+b", "e\u0301", "\u212b", "\u2126", "\u1100\u1161", "A\u030a", "\ufb01", "\uff07"]),
     )
 
 
